@@ -69,6 +69,24 @@ Theorem C07_own_reply : forall (step : db -> env -> list bytes -> reply * db) cb
 Proof. exact own_reply. Qed.
 Print Assumptions C07_own_reply.
 
+(* One log entry per acknowledged command.  C07_exactly_once_in_order applies every ENTRY once; that
+   every COMMAND takes effect once needs the premise that the proposal ids of the committed log are
+   pairwise different -- a proposal is handed to Raft once, however slow its commit is.  Then the
+   apply loop executes exactly one thing under the id of an acknowledged command.  The premise is
+   checked on every run (checks/c07.py: ids of two process lives; slow commits through the held
+   loop-back; a frozen quorum on real nodes); C07_ex_duplicate shows what happens without it. *)
+Theorem C07_one_entry_per_ack : forall (cs : list (bytes * list bytes)) id args,
+    NoDup (map fst cs) -> In (id, args) cs -> executions id cs = 1%nat.
+Proof. exact one_entry_per_ack. Qed.
+Print Assumptions C07_one_entry_per_ack.
+
+Example C07_ex_duplicate :
+  executions (B "p1") (cmds_of w_dup_log) = 2%nat /\
+  db_get (keyspace_after empty_db [(0, 0, RNil); (0, 0, RNil)]%Z w_dup_log) (B "n") = Some (VStr (B "2")) /\
+  map dreply (fst (apply_cmds exec_step [(B "p1", 7%Z)] empty_db [(0, 0, RNil); (0, 0, RNil)]%Z (cmds_of w_dup_log)))
+  = [RInt 1; RInt 2].
+Proof. exact duplicated_entry_applied_twice. Qed.
+
 (* Log order is a linearization: replies are those of executing the commands in log order
    (C07_own_reply), and log order respects real time -- if a's reply was received before b was
    sent, a is before b in the log -- because the reply follows the apply, the apply follows the
